@@ -277,11 +277,14 @@ Definition glob_ok (c : config) : Prop := forall g, c_globold c = Some g -> g = 
 
 (* what an inline reload loaded is also a rendering of the current state *)
 Definition run_inv (e : env) (s : inst) : Prop :=
-  inline e = true -> exists r, i_running s = Some r /\ no_high_shards e r /\ disk_inv e (i_cfg s) r.
+  inline e = true -> c_globold (i_cfg s) <> None ->
+  exists r, i_running s = Some r /\ no_high_shards e r /\ disk_inv e (i_cfg s) r.
 
 (* every state a history reaches: either the files are known, or the last update failed *)
 Definition reach (e : env) (dn : N) (s : inst) : Prop :=
-  dom e (i_cfg s) /\ no_high_shards e (i_disk s) /\ clean (i_cfg s) /\ defp dn (i_cfg s) /\ glob_ok (i_cfg s) /  (i_failed s = true \/ (i_failed s = false /\ disk_inv e (i_cfg s) (i_disk s) /\ run_inv e s)).
+  dom e (i_cfg s) /\ no_high_shards e (i_disk s) /\ clean (i_cfg s) /\ defp dn (i_cfg s) /\ glob_ok (i_cfg s) /\
+  (i_failed s = true \/ (i_failed s = false /\ disk_inv e (i_cfg s) (i_disk s) /\ run_inv e s /\
+                         (c_globold (i_cfg s) <> None -> c_fmaps (i_cfg s) <> None))).
 
 (* after a successful update *)
 Definition good (e : env) (dn : N) (s : inst) : Prop :=
@@ -290,7 +293,7 @@ Definition good (e : env) (dn : N) (s : inst) : Prop :=
   c_globold (i_cfg s) <> None /\ c_fmaps (i_cfg s) <> None.
 
 Lemma good_reach : forall e dn s, good e dn s -> reach e dn s.
-Proof. intros e dn s [H1 [H2 [H3 [H4 [H5 [H6 [H7 [H8 _]]]]]]]]. repeat (split; auto). Qed.
+Proof. intros e dn s [H1 [H2 [H3 [H4 [H5 [H6 [H7 [H8 [H9 H10]]]]]]]]]. repeat (split; auto). Qed.
 
 (* ================================================================ a batch, relative to the committed state *)
 
@@ -926,3 +929,585 @@ Proof.
     assert (L : (j <? nsh e) = false) by (apply N.ltb_ge; auto). rewrite L. cbn [andb]. rewrite Ds. apply A_high; auto.
 Qed.
 End Core.
+
+(* ================================================================ the two situations an update starts from *)
+
+Lemma hosts_unchanged : forall e i0 h, dom_h e h -> MH i0 h -> hosts_changed e h = false -> forall x, h_items h x = i0 x.
+Proof.
+  intros e i0 h D M C x. apply (mh3 _ _ M).
+  - destruct (h_add h x) eqn:A; auto. assert (In x (UH e)) by (apply D; right; left; congruence).
+    apply (existsb_false _ _ _ C) in H. rewrite A in H. discriminate.
+  - destruct (h_del h x) eqn:A; auto. assert (In x (UH e)) by (apply D; right; right; congruence).
+    apply (existsb_false _ _ _ C) in H. rewrite A in H. rewrite orb_true_r in H. discriminate.
+Qed.
+Lemma backs_unchanged : forall e i0 b, dom_b e b -> MB e i0 b -> backs_changed e b = false -> forall x, b_items b x = i0 x.
+Proof.
+  intros e i0 b D M C x. apply (mb3 _ _ _ M).
+  - destruct (b_add b x) eqn:A; auto. assert (In x (UB e)) by (apply D; right; left; congruence).
+    apply (existsb_false _ _ _ C) in H. rewrite A in H. discriminate.
+  - destruct (b_del b x) eqn:A; auto. assert (In x (UB e)) by (apply D; right; right; congruence).
+    apply (existsb_false _ _ _ C) in H. rewrite A in H. rewrite orb_true_r in H. discriminate.
+Qed.
+
+Lemma rssl_ext : forall c c', (forall h, h_items (c_h c) h = h_items (c_h c') h) ->
+  (forall h hc b, h_items (c_h c) h = Some hc -> hroot hc = Some b -> b_items (c_b c) b = b_items (c_b c') b) ->
+  forall h, rssl c h = rssl c' h.
+Proof.
+  intros c c' Hh Hb h. unfold rssl. rewrite <- Hh. destruct (h_items (c_h c) h) as [hc|] eqn:E; auto.
+  destruct (hroot hc) as [b|] eqn:R; auto. rewrite (Hb h hc b E R). reflexivity.
+Qed.
+
+Lemma port_used_ext : forall e (a b : fmap tcont) p, (forall t, a t = b t) -> port_used e a p = port_used e b p.
+Proof. intros. unfold port_used. apply existsb_ext_in. intros. rewrite H. reflexivity. Qed.
+Lemma port_tls_ext : forall e (a b : fmap tcont) p, (forall t, a t = b t) -> port_tls e a p = port_tls e b p.
+Proof. intros. unfold port_tls. apply existsb_ext_in. intros. rewrite H. reflexivity. Qed.
+Lemma any_host_ext : forall e (a b : fmap hcont), (forall h, a h = b h) -> any_host e a = any_host e b.
+Proof. intros. unfold any_host. apply existsb_ext_in. intros. rewrite H. reflexivity. Qed.
+Lemma any_rssl_ext : forall e (a b : N -> bool), (forall h, a h = b h) -> any_rssl e a = any_rssl e b.
+Proof. intros. unfold any_rssl. apply existsb_ext_in. intros. apply H. Qed.
+
+(* the update is taken for a no-op: nothing differs from the committed state *)
+Lemma updated_same : forall e c0 c md, dom e c -> mid e c0 c md -> glob_ok c0 -> updated e c = true ->
+  md = Partial /\ c_globold c0 <> None /\ c_glob c = c_glob c0 /\
+  (forall t, t_items (c_t c) t = t_items (c_t c0) t) /\
+  (forall h, h_items (c_h c) h = h_items (c_h c0) h) /\
+  (forall x, b_items (c_b c) x = b_items (c_b c0) x).
+Proof.
+  intros e c0 c md [Db [Dh Dt]] [Mb Mr] G U. unfold updated in U.
+  destruct (c_globold c) as [g|] eqn:Go; [|discriminate].
+  repeat (apply andb_true_iff in U; destruct U as [U ?]).
+  apply N.eqb_eq in U. apply negb_true_iff in H1. apply negb_true_iff in H0.
+  destruct md; cbn in Mr.
+  - destruct Mr as [Mr _]. congruence.
+  - destruct Mr as [M1 [M2 [M3 M4]]]. split; auto. split; [congruence|]. split.
+    + rewrite M1 in Go. apply G in Go. congruence.
+    + split; [auto|]. split.
+      * apply (hosts_unchanged e); auto.
+      * intros x. destruct (b_add (c_b c) x) as [a|] eqn:A.
+        -- assert (Ix : In x (UB e)) by (apply Db; right; left; congruence).
+           rewrite forallb_forall in H. specialize (H x Ix). rewrite A in H.
+           destruct (b_del (c_b c) x) as [d|] eqn:D; [|discriminate]. apply bcont_eqb_eq in H. subst d.
+           rewrite (mb2 _ _ _ Mb x a A). symmetry. apply (mb1 _ _ _ Mb x a D).
+        -- destruct (b_del (c_b c) x) as [d|] eqn:D.
+           ++ assert (Ix : In x (UB e)) by (apply Db; right; right; congruence).
+              rewrite forallb_forall in H. specialize (H x Ix). rewrite A, D in H. discriminate.
+           ++ apply (mb3 _ _ _ Mb); auto.
+Qed.
+
+(* a shard that is not flagged holds what it held *)
+Lemma shard_unflagged : forall e i0 b j, dom_b e b -> MB e i0 b -> j < nsh e -> b_chg b j = false ->
+  forall x, sh e x = j -> b_items b x = i0 x.
+Proof.
+  intros e i0 b j D M Hj C x Hx. apply (mb3 _ _ _ M).
+  - destruct (b_add b x) eqn:A; auto. assert (Ix : In x (UB e)) by (apply D; right; left; congruence).
+    assert (b_chg b (sh e x) = true) by (apply (mb5 _ _ _ M); [lia|auto|left; congruence]). congruence.
+  - destruct (b_del b x) eqn:A; auto. assert (Ix : In x (UB e)) by (apply D; right; right; congruence).
+    assert (b_chg b (sh e x) = true) by (apply (mb5 _ _ _ M); [lia|auto|right; congruence]). congruence.
+Qed.
+
+Lemma front_guard_false : forall e c, front_guard e c = false ->
+  c_fmaps c <> None /\ hosts_changed e (c_h c) = false /\ rootdep_changed e c = false.
+Proof.
+  intros e c H. unfold front_guard in H. apply orb_false_iff in H. destruct H as [H H3].
+  apply orb_false_iff in H. destruct H as [H1 H2]. apply negb_false_iff in H1. apply isSome_true in H1. auto.
+Qed.
+
+(* when the frontend maps are not rebuilt, what they were built from is what is there now *)
+Lemma front_same : forall e dn c0 c md, dom e c -> mid e c0 c md -> ready dn c -> front_guard e c = false ->
+  md = Partial /\ c_fmaps c = c_fmaps c0 /\ (forall h, h_items (c_h c) h = h_items (c_h c0) h) /\
+  (forall h, rssl c h = rssl c0 h).
+Proof.
+  intros e dn c0 c md [Db [Dh Dt]] [Mb Mr] [_ Ri] G. apply front_guard_false in G. destruct G as [G1 [G2 G3]].
+  destruct md; cbn in Mr.
+  - destruct Mr as [_ [Mr _]]. congruence.
+  - destruct Mr as [M1 [M2 [M3 M4]]]. split; auto. split; auto.
+    assert (Hh : forall h, h_items (c_h c) h = h_items (c_h c0) h) by (apply (hosts_unchanged e); auto).
+    split; auto. apply rssl_ext; auto.
+    intros h hc b Eh Er. unfold rootdep_changed in G3. apply andb_false_iff in G3. destruct G3 as [G3|G3].
+    + apply (backs_unchanged e); auto.
+    + assert (Ih : In h (UH e)) by (apply Dh; left; congruence).
+      apply (existsb_false _ _ _ G3) in Ih. rewrite Eh, Er in Ih. apply isSome_false in Ih.
+      apply (mb3 _ _ _ Mb); auto. destruct (b_del (c_b c) b) eqn:D; auto.
+      exfalso. apply (Ri h hc b Eh Er). apply (mb4 _ _ _ Mb); auto. congruence.
+Qed.
+
+Record upd_pre (e : env) (c1 : config) (d0 : disk) : Prop := {
+  p_tcp : t_chg (c_t c1) = false -> forall p, port_used e (t_items (c_t c1)) p = true ->
+    exists f, d_tcpmap d0 p = Some f /\ forall t, f t = restrict_port (t_items (c_t c1)) p t;
+  p_front : front_guard e c1 = false -> (exists f, c_fmaps c1 = Some f /\ fmaps_hold c1 f) /\ front_holds e d0 c1;
+  p_add : forall x a, b_add (c_b c1) x = Some a -> b_items (c_b c1) x = Some a;
+  p_back : forall x bc, b_items (c_b c1) x = Some bc -> needs_map bc = true ->
+    (backs_changed e (c_b c1) = false \/ b_add (c_b c1) x = None) -> d_backmap d0 x = Some (bpaths bc);
+  p_shard : forall j, j < nsh e -> b_chg (c_b c1) j = false -> shard_holds e d0 c1 j;
+  p_high : no_high_shards e d0;
+  p_upd : updated e c1 = true -> main_holds e d0 c1 /\ forall j, j < nsh e -> shard_holds e d0 c1 j
+}.
+
+(* the committed state was good: whatever the update skips is still right *)
+Lemma upd_pre_good : forall e dn c0 c1 md d0,
+  dom e c1 -> mid e c0 c1 md -> ready dn c1 -> glob_ok c0 -> defp dn c0 ->
+  disk_inv e c0 d0 -> no_high_shards e d0 -> upd_pre e c1 d0.
+Proof.
+  intros e dn c0 c1 md d0 D M R G Dp I Hi.
+  assert (D' := D). destruct D' as [Db [Dh Dt]]. assert (M' := M). destruct M' as [Mb Mr].
+  constructor.
+  - (* tcp maps *)
+    intros C p Hp. destruct md; cbn in Mr.
+    + destruct Mr as [_ [_ [_ [_ Mt]]]]. exfalso. unfold port_used in Hp. apply existsb_exists in Hp.
+      destruct Hp as [t [_ Ht]]. rewrite (Mt C t) in Ht. rewrite andb_false_r in Ht. discriminate.
+    + destruct Mr as [_ [_ [_ Mt]]]. specialize (Mt C).
+      rewrite (port_used_ext e _ _ p Mt) in Hp. destruct (di_tcpmap _ _ _ I p Hp) as [f [Hf Hg]].
+      exists f. split; auto. intros t. rewrite Hg. unfold restrict_port. rewrite Mt. reflexivity.
+  - (* frontend maps *)
+    intros Gd. destruct (front_same e dn c0 c1 md D M R Gd) as [-> [Ef [Eh Er]]].
+    destruct (front_guard_false _ _ Gd) as [Gf _]. rewrite Ef in Gf.
+    split.
+    + destruct (c_fmaps c0) as [f|] eqn:F0; [|congruence]. exists f. split; [congruence|].
+      destruct (di_fmaps _ _ _ I f F0) as [H1 H2]. split; intros h.
+      * rewrite H1. symmetry. apply Eh.
+      * rewrite H2. symmetry. apply Er.
+    + destruct (di_front _ _ _ I Gf) as [[f [F1 F2]] [F3 F4]]. unfold front_holds.
+      rewrite (any_host_ext e _ _ Eh). rewrite (any_rssl_ext e _ _ Er).
+      split; [|split].
+      * exists f. split; auto. intros h. rewrite F2. symmetry. apply Eh.
+      * intros A. destruct (F3 A) as [[g [G1 G2]] [g' [G3 G4]]]. split.
+        -- exists g. split; auto. intros h. rewrite G2. symmetry. apply Eh.
+        -- exists g'. split; auto. intros h. rewrite G4. symmetry. apply Eh.
+      * intros A. destruct (F4 A) as [g [G1 G2]]. exists g. split; auto. intros h. rewrite G2. symmetry. apply Er.
+  - apply (mb2 _ _ _ Mb).
+  - (* backend maps *)
+    intros x bc Hx Hn Hc.
+    assert (A : b_add (c_b c1) x = None).
+    { destruct Hc as [Hc|Hc]; auto. assert (Ix : In x (UB e)) by (apply Db; left; congruence).
+      apply (existsb_false _ _ _ Hc) in Ix. apply orb_false_iff in Ix. destruct Ix as [Ix _]. apply isSome_false in Ix. auto. }
+    assert (Dl : b_del (c_b c1) x = None).
+    { destruct (b_del (c_b c1) x) eqn:Dl; auto. rewrite (mb4 _ _ _ Mb x A) in Hx; congruence. }
+    apply (di_back _ _ _ I); auto. rewrite <- (mb3 _ _ _ Mb x A Dl). auto.
+  - (* shards *)
+    intros j Hj C x. rewrite (di_shard_lo _ _ _ I j Hj x). destruct (N.eqb_spec (sh e x) j); auto.
+    symmetry. apply (shard_unflagged e _ _ j); auto.
+  - exact Hi.
+  - (* no-op *)
+    intros U. destruct (updated_same e c0 c1 md D M G U) as [-> [Go [Eg [Et [Eh Eb]]]]].
+    assert (Er : forall h, rssl c1 h = rssl c0 h) by (apply rssl_ext; auto).
+    split.
+    + destruct (di_main _ _ _ I Go) as [m [M1 [M2 [M3 [M4 [M5 [f [M6 [M7 M8]]]]]]]]].
+      exists m. split; auto. split; [congruence|]. split.
+      { rewrite M3. destruct R as [R _]. rewrite R. unfold defp in Dp. rewrite Dp. rewrite Eb. reflexivity. }
+      split; [intros x; rewrite M4, Eb; reflexivity|]. split; [intros t; rewrite M5, Et; reflexivity|].
+      exists f. split; auto. split; intros h; [rewrite M7, Eh|rewrite M8, Er]; reflexivity.
+    + intros j Hj x. rewrite (di_shard_lo _ _ _ I j Hj x). rewrite Eb. reflexivity.
+Qed.
+
+(* the last update failed: changeAll makes the update skip nothing *)
+Lemma upd_pre_failed : forall e i0 c d0, dom e c -> MB e i0 (c_b c) -> no_high_shards e d0 ->
+  upd_pre e (config_change_all e c) d0.
+Proof.
+  intros e i0 c d0 [Db [Dh Dt]] Mb Hi. constructor; cbn.
+  - discriminate.
+  - unfold front_guard. cbn. discriminate.
+  - intros x a. destruct (b_items (c_b c) x) eqn:E; auto. intros A. rewrite (mb2 _ _ _ Mb x a A) in E. discriminate.
+  - intros x bc Hx Hn [Hc|Hc].
+    + exfalso. assert (Ix : In x (UB e)) by (apply Db; left; congruence).
+      apply (existsb_false _ _ _ Hc) in Ix. cbn in Ix. rewrite Hx in Ix. discriminate.
+    + rewrite Hx in Hc. discriminate.
+  - intros j Hj C. apply N.ltb_lt in Hj. rewrite Hj in C. discriminate.
+  - exact Hi.
+  - unfold updated. cbn. discriminate.
+Qed.
+
+(* ================================================================ one reconciliation *)
+
+Lemma mid_hitems_shrink : forall e c0 c md, mid e c0 c md ->
+  forall x, h_items (c_h (config_shrink e c)) x = h_items (c_h c) x.
+Proof.
+  intros e c0 c md [_ Mr] x. destruct md; cbn in Mr.
+  - destruct Mr as [_ [_ [H3 _]]]. cbn. unfold hmatch. rewrite H3. reflexivity.
+  - destruct Mr as [_ [_ [M3 _]]]. apply (shrink_hitems _ _ x M3).
+Qed.
+Lemma ready_shrink : forall e dn c0 c md, mid e c0 c md -> ready dn c -> ready dn (config_shrink e c).
+Proof.
+  intros e dn c0 c md M [R1 R2]. assert (M' := M). destruct M' as [Mb _]. split.
+  - cbn [config_shrink with_h with_b c_b]. rewrite (shrink_items_some e _ _ dn Mb). exact R1.
+  - intros h hc b Hh Hr. rewrite (mid_hitems_shrink e c0 c md M) in Hh.
+    specialize (R2 h hc b Hh Hr). apply isSome_true. cbn [config_shrink with_h with_b c_b].
+    rewrite (shrink_items_some e _ _ b Mb). apply isSome_true. exact R2.
+Qed.
+
+(* the files also are those of a configuration that has the same items *)
+Lemma disk_inv_transfer : forall e c c' d,
+  (forall x, b_items (c_b c') x = b_items (c_b c) x) -> (forall h, h_items (c_h c') h = h_items (c_h c) h) ->
+  (forall t, t_items (c_t c') t = t_items (c_t c) t) -> c_glob c' = c_glob c -> b_def (c_b c') = b_def (c_b c) ->
+  c_globold c <> None -> c_fmaps c <> None ->
+  (forall f, c_fmaps c' = Some f -> fmaps_hold c' f) ->
+  disk_inv e c d -> disk_inv e c' d.
+Proof.
+  intros e c c' d Eb Eh Et Eg Ed Go Fo Fm I.
+  assert (Er : forall h, rssl c' h = rssl c h) by (apply rssl_ext; auto).
+  constructor.
+  - intros _. destruct (di_main _ _ _ I Go) as [m [M1 [M2 [M3 [M4 [M5 [f [M6 [M7 M8]]]]]]]]].
+    exists m. split; auto. split; [congruence|]. split; [congruence|].
+    split; [intros x; rewrite M4, Eb; reflexivity|]. split; [intros t; rewrite M5, Et; reflexivity|].
+    exists f. split; auto. split; intros h; [rewrite M7, Eh|rewrite M8, Er]; reflexivity.
+  - intros j Hj x. rewrite (di_shard_lo _ _ _ I j Hj x). rewrite Eb. reflexivity.
+  - intros _. destruct (di_front _ _ _ I Fo) as [[f [F1 F2]] [F3 F4]].
+    rewrite (any_host_ext e _ _ Eh). rewrite (any_rssl_ext e _ _ Er). split; [|split].
+    + exists f. split; auto. intros h. rewrite F2, Eh. reflexivity.
+    + intros A. destruct (F3 A) as [[g [G1 G2]] [g' [G3 G4]]]. split.
+      * exists g. split; auto. intros h. rewrite G2, Eh. reflexivity.
+      * exists g'. split; auto. intros h. rewrite G4, Eh. reflexivity.
+    + intros A. destruct (F4 A) as [g [G1 G2]]. exists g. split; auto. intros h. rewrite G2, Er. reflexivity.
+  - exact Fm.
+  - intros x bc Hx Hn. apply (di_back _ _ _ I); auto. rewrite <- Eb. auto.
+  - intros p Hp. rewrite (port_used_ext e _ _ p Et) in Hp. destruct (di_tcpmap _ _ _ I p Hp) as [f [Hf Hg]].
+    exists f. split; auto. intros t. rewrite Hg. unfold restrict_port. rewrite Et. reflexivity.
+  - intros p Hp. rewrite (port_tls_ext e _ _ p Et) in Hp. destruct (di_tcpcrt _ _ _ I p Hp) as [f [Hf Hg]].
+    exists f. split; auto. intros t. rewrite Hg. unfold restrict_port. rewrite Et. reflexivity.
+Qed.
+
+Lemma front_c_fmaps : forall e c, c_fmaps (front_c e c) <> None.
+Proof.
+  intros e c. unfold front_c. destruct (front_guard e c) eqn:G; cbn; [discriminate|].
+  apply front_guard_false in G. apply G.
+Qed.
+Lemma dom_front_c : forall e c, dom e c -> dom e (front_c e c).
+Proof.
+  intros e c D. unfold dom. destruct (front_c_fields e c) as [Hb [Hh [Ht _]]]. rewrite Hb, Hh, Ht. exact D.
+Qed.
+Lemma clean_commit : forall c, clean (config_commit c).
+Proof. intros c. unfold clean. cbn. repeat split; auto. Qed.
+
+(* A reconciliation whose update reports success leaves the files exactly those of the
+   current state - from a state whose files were right, and from a state marked as failed. *)
+Lemma update_good : forall e dn fs s0 l s',
+  shard_range e -> reach e dn s0 -> wf_batch e dn (i_cfg s0) l ->
+  update_f e fs (sync e s0 l) = (s', false) -> good e dn s'.
+Proof.
+  intros e dn fs s0 l s' SR [D0 [NH0 [Cl0 [Dp0 [G0 St]]]]] [Shape [Oin Rdy]] U.
+  set (cs := apply_ops e (i_cfg s0) l) in *.
+  assert (Dcs : dom e cs) by (apply dom_apply_ops; auto).
+  destruct (mid_batch e (i_cfg s0) l SR D0 Cl0 Shape) as [md Mcs]. fold cs in Mcs.
+  assert (Dsh : dom e (config_shrink e cs)) by (apply dom_shrink; auto).
+  assert (Msh : mid e (i_cfg s0) (config_shrink e cs) md) by (apply mid_shrink; auto).
+  assert (Rsh : ready dn (config_shrink e cs)) by (apply (ready_shrink e dn (i_cfg s0) cs md); auto).
+  apply update_f_ok in U. cbn [sync i_cfg i_disk i_failed i_running i_pending] in U. fold cs in U.
+  (* c1: the configuration the phases see *)
+  set (c1 := if i_failed s0 then config_change_all e (config_shrink e cs) else config_shrink e cs) in *.
+  assert (Dc1 : dom e c1) by (unfold c1; destruct (i_failed s0); auto using dom_change_all).
+  assert (Rc1 : ready dn c1) by (unfold c1; destruct (i_failed s0); auto).
+  assert (P : upd_pre e c1 (i_disk s0)).
+  { unfold c1. destruct St as [F|[F [I0 _]]]; rewrite F.
+    - destruct Msh as [Mb _]. apply (upd_pre_failed e _ _ _ Dsh Mb NH0).
+    - apply (upd_pre_good e dn (i_cfg s0) _ md); auto. }
+  destruct P as [P1 P2 P3 P4 P5 P6 P7].
+  assert (Dc2 : dom e (config_commit (front_c e c1))) by (apply dom_commit; apply dom_front_c; auto).
+  assert (Dp2 : defp dn (config_commit (front_c e c1))).
+  { unfold defp. cbn [config_commit c_b backs_commit b_def b_items]. destruct (front_c_fields e c1) as [Hb _]. rewrite Hb. apply Rc1. }
+  assert (G2 : glob_ok (config_commit (front_c e c1))).
+  { unfold glob_ok. cbn [config_commit c_globold c_glob]. intros g Hg. congruence. }
+  destruct U as [[Up ->]|[Up [SF ->]]].
+  - (* taken for a no-op *)
+    destruct (core_upd e c1 (i_disk s0) P1 P2 P3 P4 P6 P7 Up) as [I NH].
+    unfold good, mk_inst. cbn [i_cfg i_disk i_failed i_running i_pending].
+    repeat (split; [solve [auto using clean_commit]|]).
+    split; [|split; [cbn; discriminate|apply front_c_fmaps]].
+    (* the running instance *)
+    intros Inl _. rewrite updated_front_c in Up.
+    destruct St as [F|[F [I0 [Rn0 Gf0]]]].
+    + exfalso. unfold c1 in Up. rewrite F in Up. unfold updated in Up. cbn in Up. discriminate.
+    + unfold c1 in Up. rewrite F in Up.
+      destruct (updated_same e (i_cfg s0) _ md Dsh Msh G0 Up) as [_ [Go [Eg [Et [Eh Eb]]]]].
+      destruct (Rn0 Inl Go) as [r [Hr [NHr Ir]]]. exists r. split; auto. split; auto.
+      assert (Ec1 : c1 = config_shrink e cs) by (unfold c1; rewrite F; reflexivity).
+      destruct (front_c_fields e c1) as [Hb [Hh [Ht [Hg _]]]].
+      apply (disk_inv_transfer e (i_cfg s0) (config_commit (front_c e c1)) r).
+      * intros x. cbn [config_commit c_b backs_commit b_items]. rewrite Hb, Ec1. apply Eb.
+      * intros h. cbn [config_commit c_h hosts_commit h_items]. rewrite Hh, Ec1. apply Eh.
+      * intros t. cbn [config_commit c_t t_items]. rewrite Ht, Ec1. apply Et.
+      * cbn [config_commit c_glob]. rewrite Hg, Ec1. exact Eg.
+      * cbn [config_commit c_b backs_commit b_def]. rewrite Hb, Ec1. destruct Rsh as [R _]. rewrite R.
+        unfold defp in Dp0. rewrite Dp0. rewrite Eb. reflexivity.
+      * exact Go.
+      * apply Gf0. exact Go.
+      * apply (di_fmaps _ _ _ I).
+      * exact Ir.
+  - (* the configuration files were written *)
+    destruct (core_wr e fs c1 (i_disk s0) P1 P2 P3 P4 P5 P6 SF) as [I NH].
+    unfold good, mk_inst. cbn [i_cfg i_disk i_failed i_running i_pending].
+    repeat (split; [solve [auto using clean_commit]|]).
+    split; [|split; [cbn; discriminate|apply front_c_fmaps]].
+    intros Inl _. rewrite Inl. eexists. split; [reflexivity|]. split; auto.
+Qed.
+
+(* ================================================================ whatever happens: the shape of the result *)
+
+Lemma ph_tcpmaps_shard : forall e fs c d, d_shard (fst (ph_tcpmaps e fs c d)) = d_shard d.
+Proof. intros. unfold ph_tcpmaps. split_ifs; reflexivity. Qed.
+Lemma ph_backmaps_shard : forall e fs c d, d_shard (fst (ph_backmaps e fs c d)) = d_shard d.
+Proof. intros. unfold ph_backmaps. split_ifs; reflexivity. Qed.
+Lemma ph_tcpcrt_shard : forall e fs c d, d_shard (fst (ph_tcpcrt e fs c d)) = d_shard d.
+Proof. intros. unfold ph_tcpcrt. split_ifs; reflexivity. Qed.
+Lemma ph_front_inv : forall e fs c d,
+  c_b (fst (fst (ph_front e fs c d))) = c_b c /\ c_h (fst (fst (ph_front e fs c d))) = c_h c /\
+  c_t (fst (fst (ph_front e fs c d))) = c_t c /\ c_glob (fst (fst (ph_front e fs c d))) = c_glob c /\
+  d_shard (snd (fst (ph_front e fs c d))) = d_shard d.
+Proof. intros. unfold ph_front. split_ifs; cbn; repeat split. Qed.
+Lemma ph_config_high : forall e fs c d, no_high_shards e d -> no_high_shards e (fst (ph_config e fs c d)).
+Proof.
+  intros e fs c d H. unfold ph_config. destruct (armed fs FMain); cbn [fst]; auto.
+  intros j Hj. cbn [with_shard with_main d_shard].
+  assert (L : (j <? nsh e) = false) by (apply N.ltb_ge; auto). rewrite L. cbn [andb]. apply H; auto.
+Qed.
+
+Definition pre_cfg (e : env) (s : inst) : config :=
+  if i_failed s then config_change_all e (config_shrink e (i_cfg s)) else config_shrink e (i_cfg s).
+
+Lemma update_f_shape : forall e fs s,
+  exists c d r p,
+    update_f e fs s = (mk_inst (config_commit c) d (snd (update_f e fs s)) r p, snd (update_f e fs s)) /\
+    c_b c = c_b (pre_cfg e s) /\ c_h c = c_h (pre_cfg e s) /\ c_t c = c_t (pre_cfg e s) /\
+    c_glob c = c_glob (pre_cfg e s) /\ (no_high_shards e (i_disk s) -> no_high_shards e d).
+Proof.
+  intros e fs s. unfold update_f. fold (pre_cfg e s).
+  pose proof (ph_tcpmaps_shard e fs (pre_cfg e s) (i_disk s)) as S1.
+  destruct (ph_tcpmaps e fs (pre_cfg e s) (i_disk s)) as [d1 e1]. cbn [fst] in S1.
+  destruct e1.
+  { unfold finish. cbn [snd]. do 4 eexists. split; [reflexivity|]. repeat split; auto. unfold no_high_shards. rewrite S1. auto. }
+  pose proof (ph_front_inv e fs (pre_cfg e s) d1) as S2.
+  destruct (ph_front e fs (pre_cfg e s) d1) as [[c2 d2] e2]. cbn [fst snd] in S2. destruct S2 as [Hb [Hh [Ht [Hg S2]]]].
+  destruct e2.
+  { unfold finish. cbn [snd]. do 4 eexists. split; [reflexivity|]. repeat split; auto. unfold no_high_shards. rewrite S2, S1. auto. }
+  pose proof (ph_backmaps_shard e fs c2 d2) as S3.
+  destruct (ph_backmaps e fs c2 d2) as [d3 e3]. cbn [fst] in S3.
+  destruct e3.
+  { unfold finish. cbn [snd]. do 4 eexists. split; [reflexivity|]. repeat split; auto. unfold no_high_shards. rewrite S3, S2, S1. auto. }
+  pose proof (ph_tcpcrt_shard e fs c2 d3) as S4.
+  destruct (ph_tcpcrt e fs c2 d3) as [d4 e4]. cbn [fst] in S4.
+  destruct e4.
+  { unfold finish. cbn [snd]. do 4 eexists. split; [reflexivity|]. repeat split; auto. unfold no_high_shards. rewrite S4, S3, S2, S1. auto. }
+  assert (N4 : no_high_shards e (i_disk s) -> no_high_shards e d4) by (unfold no_high_shards; rewrite S4, S3, S2, S1; auto).
+  destruct (updated e c2).
+  { unfold finish. cbn [snd]. do 4 eexists. split; [reflexivity|]. repeat split; auto. }
+  pose proof (ph_config_high e fs c2 d4) as S5.
+  destruct (ph_config e fs c2 d4) as [d5 e5]. cbn [fst] in S5.
+  destruct e5.
+  { unfold finish. cbn [snd]. do 4 eexists. split; [reflexivity|]. repeat split; auto. }
+  destruct (inline e).
+  - destruct (armed fs FReloadRequest || armed fs FReloadResult); unfold finish; cbn [snd];
+      do 4 eexists; (split; [reflexivity|]); repeat split; auto.
+  - unfold finish. cbn [snd]. do 4 eexists. split; [reflexivity|]. repeat split; auto.
+Qed.
+
+(* no armed fault, no error *)
+Lemma update_nofault_ok : forall e s, snd (update_f e [] s) = false.
+Proof.
+  intros e s. unfold update_f.
+  destruct (ph_tcpmaps e [] _ (i_disk s)) as [d1 e1] eqn:P1.
+  assert (e1 = false) by (unfold ph_tcpmaps in P1; cbn [armed existsb andb] in P1; destruct (t_chg _); inversion P1; auto). subst e1.
+  destruct (ph_front e [] _ d1) as [[c2 d2] e2] eqn:P2.
+  assert (e2 = false).
+  { unfold ph_front in P2. cbn [armed existsb andb] in P2. rewrite !andb_false_r in P2.
+    destruct (negb _ || _ || _); inversion P2; auto. } subst e2.
+  destruct (ph_backmaps e [] c2 d2) as [d3 e3] eqn:P3.
+  assert (e3 = false) by (unfold ph_backmaps in P3; cbn [armed existsb andb] in P3; destruct (backs_changed _ _); inversion P3; auto). subst e3.
+  destruct (ph_tcpcrt e [] c2 d3) as [d4 e4] eqn:P4.
+  assert (e4 = false) by (unfold ph_tcpcrt in P4; cbn [armed existsb andb] in P4; inversion P4; auto). subst e4.
+  destruct (updated e c2); [reflexivity|].
+  destruct (ph_config e [] c2 d4) as [d5 e5] eqn:P5.
+  assert (e5 = false) by (unfold ph_config in P5; cbn [armed existsb shard_fails] in P5; inversion P5; auto). subst e5.
+  destruct (inline e); reflexivity.
+Qed.
+
+(* every reconciliation keeps the history within [reach] *)
+Lemma step_reach : forall e dn fs s0 l,
+  shard_range e -> reach e dn s0 -> wf_batch e dn (i_cfg s0) l -> reach e dn (fst (step_f e fs s0 l)).
+Proof.
+  intros e dn fs s0 l SR R W. unfold step_f.
+  destruct (snd (update_f e fs (sync e s0 l))) eqn:Err.
+  - (* failed *)
+    destruct (update_f_shape e fs (sync e s0 l)) as [c [d [r [p [U [Hb [Hh [Ht [Hg Hn]]]]]]]]].
+    rewrite U. rewrite Err. cbn [fst].
+    destruct R as [D0 [NH0 [Cl0 [Dp0 [G0 St]]]]]. destruct W as [Shape [Oin Rdy]].
+    set (cs := apply_ops e (i_cfg s0) l) in *.
+    assert (Dcs : dom e cs) by (apply dom_apply_ops; auto).
+    destruct (mid_batch e (i_cfg s0) l SR D0 Cl0 Shape) as [md Mcs]. fold cs in Mcs.
+    assert (Dsh : dom e (config_shrink e cs)) by (apply dom_shrink; auto).
+    assert (Rsh : ready dn (config_shrink e cs)) by (apply (ready_shrink e dn (i_cfg s0) cs md); auto).
+    assert (Dpre : dom e (pre_cfg e (sync e s0 l))).
+    { unfold pre_cfg. cbn [sync i_failed i_cfg]. fold cs. destruct (i_failed s0); auto using dom_change_all. }
+    assert (Rpre : ready dn (pre_cfg e (sync e s0 l))).
+    { unfold pre_cfg. cbn [sync i_failed i_cfg]. fold cs. destruct (i_failed s0); auto. }
+    unfold reach, mk_inst. cbn [i_cfg i_disk i_failed].
+    split; [|split; [|split; [|split; [|split]]]].
+    + apply dom_commit. unfold dom. rewrite Hb, Hh, Ht. exact Dpre.
+    + apply Hn. exact NH0.
+    + apply clean_commit.
+    + unfold defp. cbn [config_commit c_b backs_commit b_def b_items]. rewrite Hb. apply Rpre.
+    + unfold glob_ok. cbn [config_commit c_globold c_glob]. intros g Hg'. congruence.
+    + left. reflexivity.
+  - (* succeeded *)
+    apply good_reach. apply (update_good e dn fs s0 l); auto.
+    destruct (update_f e fs (sync e s0 l)) as [s' err]. cbn in Err. subst err. reflexivity.
+Qed.
+
+(* ================================================================ from the invariant to the specification *)
+
+Lemma inv_disk_ok : forall e c d, shard_range e -> dom e c -> no_high_shards e d -> disk_inv e c d ->
+  c_globold c <> None -> c_fmaps c <> None -> disk_ok e c d.
+Proof.
+  intros e c d SR [Db [Dh Dt]] NH I Go Fo.
+  destruct (di_main _ _ _ I Go) as [m [M1 [M2 [M3 [M4 [M5 [f [M6 [M7 M8]]]]]]]]].
+  destruct (di_front _ _ _ I Fo) as [[fc [F1 F2]] [F3 F4]].
+  assert (AH : any_host e (fs_hosts f) = any_host e (h_items (c_h c))) by (apply any_host_ext; auto).
+  assert (AR : any_rssl e (fs_rssl f) = any_rssl e (rssl c)) by (apply any_rssl_ext; auto).
+  assert (Hnone : any_host e (h_items (c_h c)) = false -> forall h, h_items (c_h c) h = None).
+  { intros A h. destruct (h_items (c_h c) h) eqn:E; auto. assert (Ih : In h (UH e)) by (apply Dh; left; congruence).
+    apply (existsb_false _ _ _ A) in Ih. rewrite E in Ih. discriminate. }
+  constructor.
+  - (* backends *)
+    intros j x. unfold loaded_in, file_of. rewrite M1.
+    destruct (N.eqb_spec j 0) as [->|Nj].
+    + rewrite M4. destruct (N.eqb_spec (nsh e) 0) as [Z|Z].
+      * rewrite N.eqb_refl. reflexivity.
+      * destruct (N.eqb_spec 0 (sh e x + 1)) as [E|E]; auto. exfalso; lia.
+    + destruct (N.eqb_spec (nsh e) 0) as [Z|Z].
+      * rewrite (NH (j - 1)) by lia. destruct (N.eqb_spec j 0); auto. congruence.
+      * destruct (N.ltb_spec (j - 1) (nsh e)) as [L|L].
+        -- rewrite (di_shard_lo _ _ _ I (j - 1) L x).
+           destruct (N.eqb_spec (sh e x) (j - 1)) as [E|E]; destruct (N.eqb_spec j (sh e x + 1)) as [E'|E']; auto; exfalso; lia.
+        -- rewrite (NH (j - 1) L). destruct (N.eqb_spec j (sh e x + 1)) as [E'|E']; auto.
+           destruct (b_items (c_b c) x) eqn:Ex; auto. exfalso.
+           assert (Ix : In x (UB e)) by (apply Db; left; congruence). specialize (SR x Ix). lia.
+  - exists m. repeat split; auto.
+  - intros h. unfold loaded_crt. rewrite F1. apply F2.
+  - intros h. unfold loaded_hostmap, ref_hostmap, main_fs. rewrite M1, M6, AH.
+    destruct (any_host e (h_items (c_h c))) eqn:A.
+    + destruct (F3 eq_refl) as [[g [G1 G2]] _]. rewrite G1. apply G2.
+    + symmetry. apply Hnone; auto.
+  - intros h. unfold loaded_rootredir, ref_hostmap, main_fs. rewrite M1, M6, AH.
+    destruct (any_host e (h_items (c_h c))) eqn:A.
+    + destruct (F3 eq_refl) as [_ [g [G1 G2]]]. rewrite G1. apply G2.
+    + symmetry. apply Hnone; auto.
+  - intros h. unfold loaded_rootssl, ref_rootssl, main_fs. rewrite M1, M6, AR.
+    destruct (any_rssl e (rssl c)) eqn:A.
+    + destruct (F4 eq_refl) as [g [G1 G2]]. rewrite G1. apply G2.
+    + destruct (rssl c h) eqn:E; auto. exfalso.
+      assert (Ih : In h (UH e)).
+      { apply Dh. left. unfold rssl in E. destruct (h_items (c_h c) h); congruence. }
+      apply (existsb_false _ _ _ A) in Ih. congruence.
+  - apply (di_back _ _ _ I).
+  - intros t. unfold loaded_tcpmap, main_tcp. rewrite M1. rewrite (port_used_ext e _ _ (tport t) M5).
+    destruct (port_used e (t_items (c_t c)) (tport t)) eqn:A.
+    + destruct (di_tcpmap _ _ _ I _ A) as [g [G1 G2]]. rewrite G1, G2. unfold restrict_port. rewrite N.eqb_refl. reflexivity.
+    + destruct (t_items (c_t c) t) eqn:E; auto. exfalso.
+      assert (It : In t (UT e)) by (apply Dt; congruence).
+      apply (existsb_false _ _ _ A) in It. rewrite N.eqb_refl, E in It. discriminate.
+  - intros t. unfold loaded_tcpcrt, main_tcp. rewrite M1. rewrite (port_tls_ext e _ _ (tport t) M5).
+    destruct (port_tls e (t_items (c_t c)) (tport t)) eqn:A; auto.
+    destruct (di_tcpcrt _ _ _ I _ A) as [g [G1 G2]]. rewrite G1, G2. unfold restrict_port. rewrite N.eqb_refl. reflexivity.
+Qed.
+
+Lemma good_disk_ok : forall e dn s, shard_range e -> good e dn s -> disk_ok e (i_cfg s) (i_disk s).
+Proof.
+  intros e dn s SR [D [NH [_ [_ [_ [_ [I [_ [Go Fo]]]]]]]]]. apply inv_disk_ok; auto.
+Qed.
+(* what an inline reload loaded *)
+Lemma good_running_ok : forall e dn s, shard_range e -> good e dn s -> inline e = true ->
+  exists r, i_running s = Some r /\ disk_ok e (i_cfg s) r.
+Proof.
+  intros e dn s SR [D [_ [_ [_ [_ [_ [_ [Rn [Go Fo]]]]]]]]] Inl.
+  destruct (Rn Inl Go) as [r [Hr [NHr Ir]]]. exists r. split; auto. apply inv_disk_ok; auto.
+Qed.
+
+(* ================================================================ histories *)
+
+Fixpoint wf_hist (e : env) (dn : N) (s : inst) (h : list (list op * list fpoint)) : Prop :=
+  match h with
+  | [] => True
+  | st :: h' => wf_batch e dn (i_cfg s) (fst st) /\ wf_hist e dn (fst (step_f e (snd st) s (fst st))) h'
+  end.
+
+Lemma port_used_empty : forall e p, port_used e fempty p = false.
+Proof. intros. unfold port_used. induction (UT e); cbn; auto. rewrite andb_false_r. auto. Qed.
+Lemma port_tls_empty : forall e p, port_tls e fempty p = false.
+Proof. intros. unfold port_tls. induction (UT e); cbn; auto. rewrite andb_false_r. auto. Qed.
+
+Lemma reach_empty : forall e dn, reach e dn inst_empty.
+Proof.
+  intros e dn. unfold reach, inst_empty. cbn [i_cfg i_disk i_failed].
+  split; [|split; [|split; [|split; [|split]]]].
+  - unfold dom, dom_b, dom_h, dom_t. cbn. repeat split; intros x H; repeat (destruct H as [H|H]); exfalso; apply H; reflexivity.
+  - intros j _. reflexivity.
+  - unfold clean. cbn. repeat split; auto.
+  - reflexivity.
+  - intros g H. discriminate.
+  - right. split; [reflexivity|]. split; [|split].
+    + constructor; cbn.
+      * intros H. congruence.
+      * intros j _ x. destruct (sh e x =? j); reflexivity.
+      * intros H. congruence.
+      * intros f H. discriminate.
+      * intros x bc H. discriminate.
+      * intros p H. rewrite port_used_empty in H. discriminate.
+      * intros p H. rewrite port_tls_empty in H. discriminate.
+    + intros _ H. cbn in H. congruence.
+    + intros H. cbn in H. congruence.
+Qed.
+
+Lemma reach_hist : forall e dn, shard_range e -> forall h s, reach e dn s -> wf_hist e dn s h -> reach e dn (run_f e s h).
+Proof.
+  intros e dn SR. induction h as [|[l fs] h IH]; cbn; intros s R W; auto.
+  destruct W as [W1 W2]. apply IH; auto. apply step_reach; auto.
+Qed.
+
+(* C12 at full strength: whatever faults hit the earlier updates of a history, a
+   reconciliation whose update reports success leaves files - and, when the update reloads
+   itself, the running haproxy - that are exactly those of the current state. *)
+Theorem success_is_convergence : forall e dn, shard_range e ->
+  forall h, wf_hist e dn inst_empty h ->
+  forall l fs s', wf_batch e dn (i_cfg (run_f e inst_empty h)) l ->
+    step_f e fs (run_f e inst_empty h) l = (s', false) ->
+    i_failed s' = false /\ disk_ok e (i_cfg s') (i_disk s') /\
+    (inline e = true -> exists r, i_running s' = Some r /\ disk_ok e (i_cfg s') r).
+Proof.
+  intros e dn SR h W l fs s' Wl U.
+  assert (R : reach e dn (run_f e inst_empty h)) by (apply reach_hist; auto using reach_empty).
+  assert (G : good e dn s') by (apply (update_good e dn fs (run_f e inst_empty h) l); auto).
+  split; [apply G|]. split.
+  - apply (good_disk_ok e dn); auto.
+  - apply (good_running_ok e dn); auto.
+Qed.
+
+(* a failed update is reported and remembered *)
+Theorem failure_is_remembered : forall e fs s l s', step_f e fs s l = (s', true) -> i_failed s' = true.
+Proof.
+  intros e fs s l s' U. unfold step_f in U.
+  destruct (update_f_shape e fs (sync e s l)) as [c [d [r [p [Us _]]]]]. rewrite U in Us. cbn [snd] in Us.
+  inversion Us. reflexivity.
+Qed.
+
+(* ---- fault-free histories (C05) *)
+Definition nofault (h : list (list op)) : list (list op * list fpoint) := map (fun l => (l, [])) h.
+Lemma run_nofault : forall e h s, run e s h = run_f e s (nofault h).
+Proof. intros e. unfold run, run_f, nofault. induction h as [|l h IH]; cbn; intros s; auto. Qed.
+
+Theorem disk_invariant : forall e dn, shard_range e ->
+  forall h l, wf_hist e dn inst_empty (nofault (h ++ [l])) ->
+    snd (step e (run e inst_empty h) l) = false /\
+    disk_ok e (i_cfg (run e inst_empty (h ++ [l]))) (i_disk (run e inst_empty (h ++ [l]))).
+Proof.
+  intros e dn SR h l W.
+  assert (E : snd (step e (run e inst_empty h) l) = false) by (unfold step, update; apply update_nofault_ok).
+  split; auto.
+  assert (Wh : wf_hist e dn inst_empty (nofault h) /\ wf_batch e dn (i_cfg (run_f e inst_empty (nofault h))) l).
+  { clear E. unfold nofault in W. rewrite map_app in W. cbn in W. fold (nofault h) in W.
+    revert W. generalize inst_empty. induction (nofault h) as [|st g IH]; cbn; intros s W.
+    - destruct W as [W _]. auto.
+    - destruct W as [W1 W2]. destruct (IH _ W2) as [A B]. auto. }
+  destruct Wh as [Wh Wl].
+  assert (R : run e inst_empty (h ++ [l]) = fst (step e (run e inst_empty h) l)).
+  { unfold run. rewrite fold_left_app. reflexivity. }
+  rewrite R. destruct (step e (run e inst_empty h) l) as [s' err] eqn:S. cbn in E. subst err. cbn [fst].
+  rewrite run_nofault in S.
+  destruct (success_is_convergence e dn SR (nofault h) Wh l [] s' Wl S) as [_ [D _]]. exact D.
+Qed.
